@@ -84,6 +84,7 @@ class Cfg:
         self.min_types = 0
         self.redactors = True
         self.union_struct_bias = False
+        self.risky_literals = 0       # how many near-miss literals (C10) a spec may contain
         self.doc_escapes = False      # doc words like C:\\users (\\u... in generated docstrings)
         self.omitted = True           # Omitted(...) annotations (change what is encoded)
         self.nullable_aliases = False  # `alias N = String?`: stone treats fields of such a type
@@ -656,10 +657,21 @@ class Builder:
                     f['default'] = ('tag', g.choice(voids))
 
     def literal_for(self, t):
-        """A literal satisfying primitive type `t` (boundary-biased)."""
+        """A literal satisfying primitive type `t` (boundary-biased).  With cfg.risky_literals
+        a few literals per spec are only *nearly* right (stone's own acceptance is the filter)."""
         from .values import prim_value_strategy, to_spec_literal
         v = self.g.draw(prim_value_strategy(t, for_spec=True, wild=self.cfg.wild_strings))
-        return to_spec_literal(t, v)
+        lit = to_spec_literal(t, v)
+        if getattr(self, 'risky_left', self.cfg.risky_literals) > 0 and self.g.p(20):
+            self.risky_left = getattr(self, 'risky_left', self.cfg.risky_literals) - 1
+            name = t[1]
+            if name == 'String':
+                return lit + self.g.choice(['1', '\n', ' ', 'Z', 'x' * 30])
+            if name in M.FLOATS:
+                return self.g.choice([int(lit) if abs(lit) < 1e15 else lit, lit - 1, lit + 1, -lit, lit * 2])
+            if name in M.INTS:
+                return lit + self.g.choice([1, -1])
+        return lit
 
     # -- inhabitedness ---------------------------------------------------------------------------
     def inhabited_set(self):
